@@ -81,21 +81,22 @@ type recvT struct {
 	Seed bool `json:"seed"`
 }
 type runLog struct {
-	N        int       `json:"n"`
-	Mode     string    `json:"mode"` // "forced" | "stress"
-	Res      string    `json:"res"`
-	Init     []int     `json:"init"`
-	Progs    []callT   `json:"progs"`
-	Kinds    []kindT   `json:"kinds"`
-	Commits  []commitT `json:"commits"`
-	Results  []resultT `json:"results"`
-	Recv     [][]recvT `json:"recv"`
-	SubAfter []int     `json:"subAfter"` // per subscriber: number of commits that had happened when it was registered on the bus
-	Final    []int     `json:"final"`
-	Steps    int       `json:"steps"`
-	Problem  string    `json:"problem"` // the run could not be completed at all (inconclusive, not a verdict)
-	Drift    string    `json:"drift"`   // the real code left the specification's behaviour at this point (the run was finished free-running)
-	Sched    []stepT   `json:"sched"`
+	N         int       `json:"n"`
+	Mode      string    `json:"mode"` // "forced" | "stress"
+	Res       string    `json:"res"`
+	Init      []int     `json:"init"`
+	Progs     []callT   `json:"progs"`
+	Kinds     []kindT   `json:"kinds"`
+	Commits   []commitT `json:"commits"`
+	Results   []resultT `json:"results"`
+	Recv      [][]recvT `json:"recv"`
+	Cancelled []bool    `json:"cancelled"` // per subscriber: its context was cancelled during the run
+	SubAfter  []int     `json:"subAfter"`  // per subscriber: number of commits that had happened when it was registered on the bus
+	Final     []int     `json:"final"`
+	Steps     int       `json:"steps"`
+	Problem   string    `json:"problem"` // the run could not be completed at all (inconclusive, not a verdict)
+	Drift     string    `json:"drift"`   // the real code left the specification's behaviour at this point (the run was finished free-running)
+	Sched     []stepT   `json:"sched"`
 }
 
 var ids = []string{"", "aaaaaaaa", "bbbbbbbb"}
@@ -135,6 +136,9 @@ type world struct {
 	progs    []callT
 	nlisten  int
 	subAfter map[int64]int // goroutine of a subscriber -> commits at registration
+	snaps    int           // listener copies taken by writers so far (one per commit, in commit order)
+	lsnOf    map[int64]any // goroutine of a subscriber -> its bus listener
+	stopped  map[any]bool  // bus listeners whose watcher has closed them
 }
 
 // the world of the run in progress; goroutines left over from an earlier run (listener watchers
@@ -161,8 +165,21 @@ func hook(point string, obj any, args ...any) {
 		if wi, ok := w.writerOf[g]; ok {
 			w.commits = append(w.commits, commitT{W: wi, ID: w.progs[wi-1].ID, V: absent})
 		}
+	case "send.snap.begin":
+		// a writer is about to copy the listeners its change will be sent to (while it still holds the write
+		// lock): this, not the moment the commit is logged, decides whether a subscriber registered "before" it
+		if _, ok := w.writerOf[g]; ok {
+			w.snaps++
+		}
 	case "listen.added":
-		w.subAfter[g] = len(w.commits)
+		w.subAfter[g] = w.snaps
+		if len(args) > 0 {
+			w.lsnOf[g] = args[0]
+		}
+	case "stop.closed":
+		if len(args) > 0 {
+			w.stopped[args[0]] = true
+		}
 	}
 	p := w.procs[g]
 	forced := w.forced
@@ -327,7 +344,8 @@ func build(c caseT) target {
 }
 
 func newWorld(c caseT, forced bool) *world {
-	w := &world{forced: forced, procs: map[int64]*proc{}, writerOf: map[int64]int{}, progs: c.Progs, subAfter: map[int64]int{}}
+	w := &world{forced: forced, procs: map[int64]*proc{}, writerOf: map[int64]int{}, progs: c.Progs, subAfter: map[int64]int{},
+		lsnOf: map[int64]any{}, stopped: map[any]bool{}}
 	cur.Store(w)
 	return w
 }
@@ -339,12 +357,17 @@ func runForced(c caseT) runLog {
 	t := build(c)
 	lg := runLog{N: c.N, Mode: "forced", Res: c.Res, Init: c.Init, Progs: c.Progs, Kinds: c.Kinds, Sched: c.Sched,
 		Results: make([]resultT, len(c.Progs)), Recv: make([][]recvT, len(c.Kinds)), SubAfter: make([]int, len(c.Kinds)),
-		Commits: []commitT{}}
+		Commits: []commitT{}, Cancelled: make([]bool, len(c.Kinds))}
 	for i := range lg.Recv {
 		lg.Recv[i] = []recvT{}
 	}
 	ctx, cancel := context.WithCancel(context.Background())
 	defer cancel()
+	subCtx := make([]context.Context, len(c.Kinds))
+	subCancel := make([]context.CancelFunc, len(c.Kinds))
+	for i := range c.Kinds {
+		subCtx[i], subCancel[i] = context.WithCancel(ctx)
+	}
 	writers := make([]*proc, len(c.Progs))
 	for i := range c.Progs {
 		i := i
@@ -357,13 +380,15 @@ func runForced(c caseT) runLog {
 	}
 	subs := make([]subscription, len(c.Kinds))
 	subProcs := make([]*proc, len(c.Kinds))
+	subLsn := make([]any, len(c.Kinds))
 	for i := range c.Kinds {
 		i := i
 		subProcs[i] = w.spawn(fmt.Sprintf("s%d", i+1), func() {
 			g := goid()
-			subs[i] = t.pull(ctx, c.Kinds[i])
+			subs[i] = t.pull(subCtx[i], c.Kinds[i])
 			w.mu.Lock()
 			lg.SubAfter[i] = w.subAfter[g]
+			subLsn[i] = w.lsnOf[g]
 			w.mu.Unlock()
 		})
 	}
@@ -407,6 +432,21 @@ func runForced(c caseT) runLog {
 			ok = advance(writers[st.P-1], stepWait)
 		case "SubSnap", "SubListen":
 			ok = advance(subProcs[st.P-1], stepWait)
+		case "SubCancel":
+			lg.Cancelled[st.P-1] = true
+			subCancel[st.P-1]()
+			// Between the cancel and the moment the listener's watcher has closed it, a publication finding the
+			// forwarder still receiving may hand the event over instead of skipping the listener (Go's select
+			// picks either): wait for the watcher, after that the listener is skipped for sure.
+			for deadline := time.Now().Add(stepWait); ; {
+				w.mu.Lock()
+				done := subLsn[st.P-1] == nil || w.stopped[subLsn[st.P-1]]
+				w.mu.Unlock()
+				if done || time.Now().After(deadline) {
+					break
+				}
+				time.Sleep(20 * time.Microsecond)
+			}
 		case "Recv":
 			var e recvT
 			if c.Kinds[st.P-1].Lossy {
@@ -447,7 +487,13 @@ func runForced(c caseT) runLog {
 			break
 		}
 		if pending > 0 && lg.Drift == "" {
-			lg.Drift = "processes unfinished after the schedule"
+			names := ""
+			for _, p := range all {
+				if !finished[p] {
+					names += " " + p.name
+				}
+			}
+			lg.Drift = "processes unfinished after the schedule:" + names
 		}
 		if time.Now().After(deadline) {
 			lg.Problem = fmt.Sprintf("%d processes cannot finish after the schedule (%s)", pending, lg.Drift)
@@ -506,7 +552,7 @@ func runStress(c caseT, iter int) runLog {
 	rnd := hx.Rand(int64(c.N)*7919 + int64(iter))
 	lg := runLog{N: c.N, Mode: "stress", Res: c.Res, Init: c.Init, Progs: c.Progs, Kinds: c.Kinds, Sched: []stepT{},
 		Results: make([]resultT, len(c.Progs)), Recv: make([][]recvT, len(c.Kinds)), SubAfter: make([]int, len(c.Kinds)),
-		Commits: []commitT{}}
+		Commits: []commitT{}, Cancelled: make([]bool, len(c.Kinds))}
 	ctx, cancel := context.WithCancel(context.Background())
 	defer cancel()
 	var wg sync.WaitGroup
